@@ -211,9 +211,38 @@ def xer_variants(rng, xb, n):
     gaps = xer_gaps(toks)
     WS = [b" ", b"\n", b"\t", b"\r\n", b"   ", b"\n\n    "]
     for _ in range(n):
-        fam = rng.choice(["ws", "ws", "comment", "emptyform", "tagspace", "prolog", "mix"])
+        fam = rng.choice(["ws", "ws", "comment", "emptyform", "tagspace", "prolog", "mix", "charref", "charref"])
         t = list(toks)
         used = set()
+        if fam == "charref":
+            # numeric character references (XML 4.1) inside character data: only in text that is certainly a character string
+            # (it holds a multi-octet UTF-8 sequence); some of its characters, ASCII or not, are written as &#N; / &#xH;
+            cand = [i for i, x in enumerate(toks) if _kind(x) == "text" and any(b > 0x7f for b in x)]
+            done = False
+            for i in cand:
+                try:
+                    chars = toks[i].decode("utf-8")
+                except UnicodeDecodeError:
+                    continue
+                outc, j = [], 0
+                while j < len(chars):
+                    ch = chars[j]
+                    if ch == "&":
+                        # an existing reference is copied whole
+                        e_ = chars.find(";", j)
+                        outc.append(chars[j:e_ + 1])
+                        j = e_ + 1
+                        continue
+                    cp = ord(ch)
+                    if (cp > 0x7f or ch.isalnum()) and rng.random() < (0.7 if cp > 0x7f else 0.2):
+                        outc.append(rng.choice(["&#%d;" % cp, "&#x%x;" % cp, "&#x%X;" % cp, "&#x%04x;" % cp]))
+                        done = True
+                    else:
+                        outc.append(ch)
+                    j += 1
+                t[i] = "".join(outc).encode("utf-8")
+            if done:
+                used.add("charref")
         if fam in ("ws", "mix") and gaps:
             ins = {}
             for g in rng.sample(gaps, max(1, min(len(gaps), rng.choice([1, 2, len(gaps)])))):
